@@ -179,6 +179,15 @@ def startSim (cfg : SCfg) (hubCfg : Forkable.Config) (bundles : List FileSourceS
   else if cursorRejected cfg then none
   else some (startBody cfg (hubAtStart hubCfg pushes) (absStart cfg hubCfg pushes) bundles forks)
 
+/-- the simulation state in which Stream.Run ends (`none`: the options were rejected) -/
+def runStreamFinal (cfg : SCfg) (hubCfg : Forkable.Config) (bundles : List FileSourceSeq.Bundle)
+    (forks : List Resolver.ForkFile) (pushes : List Push) : Option Sim :=
+  match startSim cfg hubCfg bundles forks pushes with
+  | none => none
+  | some m1 =>
+    let fuel := 4 * (pushes.length + (bundles.flatMap (·.blocks)).length + 10) + 50
+    some (simLoop cfg fuel m1)
+
 /-- Stream.Run over the given stores, hub configuration and schedule of hub pushes -/
 def runStream (cfg : SCfg) (hubCfg : Forkable.Config) (bundles : List FileSourceSeq.Bundle)
     (forks : List Resolver.ForkFile) (pushes : List Push) : List Event × SEnd :=
